@@ -152,10 +152,10 @@ let handle (req : sexp) : sexp =
     L (List.map zl (find_first_or_last_n (zlist codes) (nat_of ng) (nat_of n) (bmask_of m) (atom fwd <> "0")))
   | L [A "first_n_spec"; codes; ng; n; m] -> L (List.map zl (first_n_spec (zlist codes) (nat_of ng) (nat_of n) (bmask_of m)))
   | L [A "last_n_spec"; codes; ng; n; m] -> L (List.map zl (last_n_spec (zlist codes) (nat_of ng) (nat_of n) (bmask_of m)))
-  | L [A "cumulative"; d; op; skipna; codes; vals; ng; m] ->
+  | L [A "cumulative"; d; temporal; op; skipna; codes; vals; ng; m] ->
     let D (o, rd, pr) = dom_of d in
     let vl s = List.map (fun x -> rd (atom x)) (lst s) in
-    L (List.map (fun v -> A (pr v)) (cumulative o (cumop_of (atom op)) (atom skipna <> "0") (zlist codes) (vl vals) (nat_of ng) (bmask_of m)))
+    L (List.map (fun v -> A (pr v)) (cumulative_t o (atom temporal <> "0") (cumop_of (atom op)) (atom skipna <> "0") (zlist codes) (vl vals) (nat_of ng) (bmask_of m)))
   | L [A "cum_spec"; d; op; codes; vals; m] ->
     let D (o, rd, pr) = dom_of d in
     let vl s = List.map (fun x -> rd (atom x)) (lst s) in
